@@ -68,6 +68,12 @@ where
             o.produce(n, &[]);
             self.current_delay -= n;
         }
+        if self.current_delay > 0 {
+            // Not all of the delay fit in the output. No input may be passed on
+            // before the rest of it, even if output space has been freed up
+            // by another thread in the meantime.
+            return Ok(BlockRet::WaitForStream(&self.dst, 1));
+        }
         {
             let (input, _tags) = self.src.read_buf()?;
             let a = input.len();
